@@ -146,6 +146,13 @@ impl StorageData for FileStorage {
         Ok(())
     }
 
+    fn rollback(&mut self) -> Result<(), DbError> {
+        self.wal.repair()?;
+        Self::apply_wal(&mut self.file, &mut self.wal)?;
+        self.len = self.file.seek(SeekFrom::End(0))?;
+        Ok(())
+    }
+
     fn resize(&mut self, new_len: u64) -> Result<(), DbError> {
         let current_len = self.len();
 
